@@ -436,6 +436,10 @@ class Scanner:
         set_args = [a for a in args if not isinstance(a, ast.Starred) and self.is_set(rel, func, a)]
         if name == "sorted" and args:
             src = args[0]
+            # sorted(list(s)) / sorted(tuple(s)) / sorted(reversed(list(s))): the wrapper only materialises the set's order
+            while isinstance(src, ast.Call) and call_name(src) in ("list", "tuple", "iter", "reversed") and len(src.args) == 1 \
+                    and not self.is_set(rel, func, src):
+                src = src.args[0]
             inner_set = self.is_set(rel, func, src)
             elem = self.set_elem(rel, src) if inner_set else "?"
             if not inner_set and isinstance(src, ast.BinOp) and isinstance(src.op, ast.Add):
